@@ -13,7 +13,8 @@ POOL = [
     "a halt\nb halt\nc `\n", "a halt\nb \"unterminated\n", "a halt\n.orig x3000\n.orig x4000\n", ".orig x4000\na halt\n",
     "a .stringz \"hi\"\nlea r0 a\nputs\nhalt\n", "loop add r0 r0 #1\nbrp loop\n", "loop and r0 r0 #0\n", "x1 halt\n",
     "a halt\n.blkw x200\nbr a\n", "a .break\nhalt\n", ".break\na halt\n", "a halt ; comment\n", "é\n", "a é\n",
-    "a add r0 r0 #99\n", "a halt\nb add r0 r0\n", "", "\n\n", "a trap x25\nb trap x26\n", "b halt\nbr a\n",
+    "a add r0 r0 #99\n", "BUF .fill #1\nBuf .fill #2\nld r0 buf\nhalt\n", "Lbl halt\nbr lbl\n", "br LBL\nlbl halt\n",
+    "l1 halt\nl2 halt\nl3 halt\nl4 halt\nl5 halt\nl6 halt\nL1 halt\nbr l1\nbr L1\n", "aa halt\nbb halt\ncc halt\ndd halt\nee halt\nee halt\n", "a halt\nb add r0 r0\n", "", "\n\n", "a trap x25\nb trap x26\n", "b halt\nbr a\n",
 ]
 
 
